@@ -242,3 +242,55 @@ def lattice(refdom_name, n, rng):
             continue
         pts.append(x)
     return np.array(pts).T
+
+
+def check_global_duality(label, factory, mesh, report, tol=1e-6):
+    """ElementGlobal family: the functional each DOF's NAME denotes (u, u_x, u_xy, u_xz, ..., u_n at an edge), taken at
+    the canonical location of the DOF's entity (vertex / mean of the facet's vertices / mean of all vertices) from the
+    fields gbasis delivers, applied to basis function j, is delta_ij (u_n: up to the sign convention of the normal).
+    Independent of gdof: names from dofnames, locations from the geometry.  Returns (comparisons, max deviation)."""
+    from . import c09_gdof
+    e = fresh(factory)
+    exp = c09_gdof.expected(e)
+    X = np.array([[float(c) for c in pt] for pt in c09_gdof.canonical_points(e)]).T      # (dim, nb) reference points
+    mapping = mesh._mapping()
+    nb, d = len(exp), mesh.p.shape[0]
+    nel = mesh.t.shape[1]
+    facets = e.refdom.facets or []
+    L = np.zeros((nel, nb, nb))
+    for j in range(nb):
+        f = e.gbasis(mapping, X, j)[0]
+        fields = {0: np.asarray(f), 1: np.asarray(f.grad)}
+        for k, nm in ((2, 'hess'), (3, 'grad3'), (4, 'grad4')):
+            if getattr(f, nm, None) is not None:
+                fields[k] = np.asarray(getattr(f, nm))
+        for i, (kind, _) in enumerate(exp):
+            if kind.startswith('u_n@edge'):
+                a, b = facets[int(kind[len('u_n@edge'):])]
+                tvec = mesh.p[:, mesh.t[b]] - mesh.p[:, mesh.t[a]]          # (2, nel)
+                nrm = np.array([tvec[1], -tvec[0]]) / np.linalg.norm(tvec, axis=0)
+                L[:, i, j] = np.einsum('ic,ic->c', fields[1][:, :, i], nrm)
+            else:
+                idx = tuple('xyz'.index(ch) for ch in kind[2:]) if kind != 'u' else ()
+                if len(idx) not in fields:
+                    report(f'elem={label}:functional-order', f'{label}: DOF {i} is named {kind} but gbasis delivers no derivative '
+                           f'field of order {len(idx)}', {'element': label, 'i': i, 'dofname': kind})
+                    continue
+                L[:, i, j] = fields[len(idx)][idx + (slice(None), i)]
+    worst = 0.0
+    for i, (kind, _) in enumerate(exp):
+        for j in range(nb):
+            got = L[:, i, j]
+            want = 1.0 if i == j else 0.0
+            dev = np.abs(np.abs(got) - want) if kind.startswith('u_n') else np.abs(got - want)
+            w = float(np.max(dev))
+            worst = max(worst, w)
+            if not w <= tol:
+                c = int(np.argmax(dev))
+                report(f'elem={label}:functional-duality',
+                       f'{label}: the functional named {kind} of local DOF {i} (canonical location of its entity) applied to basis '
+                       f'function {j} is {float(got[c])!r}, expected {want} (cell {c})',
+                       {'element': label, 'dof': i, 'dofname': kind, 'basis_function': j, 'cell': c, 'value': float(got[c]),
+                        'mesh_class': type(mesh).__name__, 'p': mesh.p.tolist(), 't': mesh.t.tolist(),
+                        'reference_point': X[:, i].tolist()})
+    return nb * nb * nel, worst
